@@ -103,3 +103,30 @@ package iparser
 //@   props C20
 //@   requires g != nil && ctx != nil
 //@   ensures [C20] positioned: old(len(g.ParseErrors)) == 0 ==> forRangeStmt.LineNum == tokLine(startTok(ctx.BaseParserRuleContext)) && forRangeStmt.Code == ctxText(ctx.BaseParserRuleContext)
+
+// rule metadata (C01, @name / @desc / @sal): the header fields are reset when a rule starts, and a metadata constant
+// receives the listener's current header value. Trusted: the walk order (header before body, rules one after another).
+//@ func (*GengineParserListener).EnterRuleEntity
+//@   props C01
+//@   requires g != nil
+//@   ensures [C01] reset: old(len(g.ParseErrors)) == 0 ==> g.ruleName == "" && g.ruleDescription == "" && g.salience == 0
+//@   modifies g.ruleName, g.ruleDescription, g.salience
+
+//@ func (*GengineParserListener).ExitAtSal
+//@   props C01
+//@   requires g != nil
+//@   oncall base.AtSalienceHolder.AcceptSalience
+//@     assert [C01] ownsalience: arg0 == g.salience
+
+//@ func (*GengineParserListener).ExitAtDesc
+//@   props C01
+//@   requires g != nil
+//@   oncall base.AtDescHolder.AcceptDesc
+//@     assert [C01] owndescription: arg0 == strReplaceAll(g.ruleDescription, "\"", "")
+
+//@ func (*GengineParserListener).ExitAtName
+//@   props C01
+//@   requires g != nil
+//@   oncall base.AtNameHolder.AcceptName
+//@     assert [C01] ownname: arg0 == strReplaceAll(g.ruleName, "\"", "")
+
